@@ -316,6 +316,9 @@ CHECKS = {
             {"name": "app", "pkg": "./internal/app", "run": "^TestVerifC12",
              "quick": {"checks": 1500, "shards": 4, "timeout": 900},
              "thorough": {"checks": 20000, "shards": 16, "timeout": 3400}},
+            {"name": "srv", "pkg": "./internal/verifsrv", "run": "^TestVerifC12", "binaries": ["thruserv", "thru"],
+             "quick": {"checks": 2, "shards": 2, "timeout": 900},
+             "thorough": {"checks": 8, "shards": 6, "timeout": 3400}},
         ],
     },
     "C13": {
@@ -543,3 +546,6 @@ CHECKS["C04"]["level_text"] += (" Unit 'e2e' uses the real binaries: thruserv an
                                 "last `thru join` answers the resume prompt with yes and must exit 0 within 90 s with exactly the hosted tree.")
 CHECKS["C01"]["level_text"] += (" Unit 'e2e' runs the complete applications over real QUIC (thruserv, `thru host`, `thru join` as processes): "
                                 "whenever `thru join` exits 0 its output directory must hold exactly the hosted tree.")
+CHECKS["C12"]["level_text"] += (" Unit 'e2e' uses the real binaries: `thru host --max-receivers M` (M = 1, 2) serves M+1 or M+2 receivers that "
+                                "join almost together while a 12-40 MiB file keeps the transfers overlapping; the host's own status lines must never "
+                                "show more than M active transfers and every `thru join` must exit 0 with exactly the hosted tree.")
